@@ -498,23 +498,23 @@ pub fn configs(tier: crate::registry::Tier, seed: u64) -> Vec<crate::registry::E
     let mut v = Vec::new();
     for variant in 0..3 {
         for (m, n, p) in [(2, 2, 2), (1, 2, 1), (2, 1, 2), (0, 2, 1), (2, 0, 2)] {
-            v.push(entry(Containers { kind: Kind::SpArith, m, n, p, variant }, 300, 60.0));
+            v.push(entry(Containers { kind: Kind::SpArith, m, n, p, variant }, 4096, 90.0));
         }
     }
     for variant in 0..2 {
         for (m, n, p) in [(2, 2, 1), (1, 2, 2), (2, 1, 0), (0, 1, 1)] {
-            v.push(entry(Containers { kind: Kind::SpStruct, m, n, p, variant }, 200, 60.0));
+            v.push(entry(Containers { kind: Kind::SpStruct, m, n, p, variant }, 4096, 90.0));
         }
         for (m, n) in [(2, 2), (1, 3), (2, 0)] {
-            v.push(entry(Containers { kind: Kind::Vecs, m, n, p: 0, variant }, 200, 60.0));
+            v.push(entry(Containers { kind: Kind::Vecs, m, n, p: 0, variant }, 4096, 90.0));
         }
     }
     for (m, n, p) in [(2, 2, 2), (1, 2, 1), (2, 1, 0), (0, 0, 0)] {
-        v.push(entry(Containers { kind: Kind::Dense, m, n, p, variant: 0 }, 200, 60.0));
+        v.push(entry(Containers { kind: Kind::Dense, m, n, p, variant: 0 }, 4096, 90.0));
     }
     for variant in [seed as usize % 2, 1 - seed as usize % 2] {
         for (m, n, p) in [(2, 2, 1), (2, 1, 2), (1, 2, 2)] {
-            v.push(entry(Containers { kind: Kind::TransSeq, m, n, p, variant }, 200, 60.0));
+            v.push(entry(Containers { kind: Kind::TransSeq, m, n, p, variant }, 4096, 90.0));
         }
     }
     if tier == Tier::Thorough {
